@@ -1,5 +1,6 @@
 import TinysetModel.Proofs.Fits
 import TinysetModel.Proofs.Consts
+import TinysetModel.Proofs.Typed
 /-! C03 — the public 64-bit encoding `Fits64` is lossless, injective and small, for every supported type.
 The definitions `Gen.to_u64_<ty>` / `Gen.from_u64_<ty>` are regenerated from `src/set64.rs` on every run
 (tools/gen_fits.py), so these theorems are about the macro bodies as they are in the source now.
@@ -75,5 +76,137 @@ theorem small_char (c : BitVec 32) : (Gen.to_u64_char c).toNat = c.toNat := to_s
 theorem all_types_covered : Gen.fitsTypes.map (·.1) = ["u64", "u32", "u16", "u8", "usize", "i8", "i16", "i32", "i64", "isize"] := by decide
 /-- non-vacuity: `-1i8 ↦ 1`, `i8::MIN ↦ 255`, `127i8 ↦ 254` -/
 example : (Gen.to_u64_i8 0xFF#8).toNat = 1 ∧ (Gen.to_u64_i8 0x80#8).toNat = 255 ∧ (Gen.to_u64_i8 0x7F#8).toNat = 254 := by decide
+
+/-! ## typed wrappers
+
+`Set64<T>` wraps a `SetU64` and forwards `insert/remove/contains(x)` as `…(x.to_u64())`, `len()` unchanged, and
+`iter()/drain()/into_iter()` as `self.0.iter().map(T::from_u64)`.  `SC.Faithful enc dec` (Proofs/Typed.lean) says, for
+typed histories (`SC.TOp T`: `ins x | rem x | con x | len`) from `new()`, every RNG and every generator state:
+(1) whenever the run of the wrapped `SetU64` on the encoded history returns, every answer is the answer of an ideal
+set of `T` (`SC.tspecRun`), decoding the iteration of the final `SetU64` gives exactly the members of the final ideal
+set, each once (a permutation of it), and `len` is its size; (2) with fuel `≥ 2`, every history of fewer than `2^60`
+operations does return.  The generic theorems are `SC.spec_enc_commutes`, `SC.typed_run_refines`,
+`SC.typed_run_total`, `SC.faithful_of`; the instances below use the generated `to_u64`/`from_u64` bodies. -/
+
+/-- `Set64<u64>` is a faithful set of `u64` (all `2^64` values): answers of an ideal set, iteration returns exactly the
+inserted values, each once, and every history of `< 2^60` operations returns -/
+theorem set64_u64_faithful :
+    SC.Faithful (fun x : BitVec 64 => (Gen.to_u64_u64 x).toNat) (fun n => Gen.from_u64_u64 (BitVec.ofNat 64 n)) :=
+  SC.faithful_of_bv Gen.to_u64_u64 Gen.from_u64_u64 to_injective_u64 from_to_u64
+/-- `Set64<u32>` is a faithful set of `u32` (all `2^32` values): answers of an ideal set, iteration returns exactly the
+inserted values, each once, and every history of `< 2^60` operations returns -/
+theorem set64_u32_faithful :
+    SC.Faithful (fun x : BitVec 32 => (Gen.to_u64_u32 x).toNat) (fun n => Gen.from_u64_u32 (BitVec.ofNat 64 n)) :=
+  SC.faithful_of_bv Gen.to_u64_u32 Gen.from_u64_u32 to_injective_u32 from_to_u32
+/-- `Set64<u16>` is a faithful set of `u16` (all `2^16` values): answers of an ideal set, iteration returns exactly the
+inserted values, each once, and every history of `< 2^60` operations returns -/
+theorem set64_u16_faithful :
+    SC.Faithful (fun x : BitVec 16 => (Gen.to_u64_u16 x).toNat) (fun n => Gen.from_u64_u16 (BitVec.ofNat 64 n)) :=
+  SC.faithful_of_bv Gen.to_u64_u16 Gen.from_u64_u16 to_injective_u16 from_to_u16
+/-- `Set64<u8>` is a faithful set of `u8` (all `2^8` values): answers of an ideal set, iteration returns exactly the
+inserted values, each once, and every history of `< 2^60` operations returns -/
+theorem set64_u8_faithful :
+    SC.Faithful (fun x : BitVec 8 => (Gen.to_u64_u8 x).toNat) (fun n => Gen.from_u64_u8 (BitVec.ofNat 64 n)) :=
+  SC.faithful_of_bv Gen.to_u64_u8 Gen.from_u64_u8 to_injective_u8 from_to_u8
+/-- `Set64<usize>` is a faithful set of `usize` (all `2^64` values): answers of an ideal set, iteration returns exactly the
+inserted values, each once, and every history of `< 2^60` operations returns -/
+theorem set64_usize_faithful :
+    SC.Faithful (fun x : BitVec 64 => (Gen.to_u64_usize x).toNat) (fun n => Gen.from_u64_usize (BitVec.ofNat 64 n)) :=
+  SC.faithful_of_bv Gen.to_u64_usize Gen.from_u64_usize to_injective_usize from_to_usize
+/-- `Set64<i8>` is a faithful set of `i8` (all `2^8` values): answers of an ideal set, iteration returns exactly the
+inserted values, each once, and every history of `< 2^60` operations returns -/
+theorem set64_i8_faithful :
+    SC.Faithful (fun x : BitVec 8 => (Gen.to_u64_i8 x).toNat) (fun n => Gen.from_u64_i8 (BitVec.ofNat 64 n)) :=
+  SC.faithful_of_bv Gen.to_u64_i8 Gen.from_u64_i8 to_injective_i8 from_to_i8
+/-- `Set64<i16>` is a faithful set of `i16` (all `2^16` values): answers of an ideal set, iteration returns exactly the
+inserted values, each once, and every history of `< 2^60` operations returns -/
+theorem set64_i16_faithful :
+    SC.Faithful (fun x : BitVec 16 => (Gen.to_u64_i16 x).toNat) (fun n => Gen.from_u64_i16 (BitVec.ofNat 64 n)) :=
+  SC.faithful_of_bv Gen.to_u64_i16 Gen.from_u64_i16 to_injective_i16 from_to_i16
+/-- `Set64<i32>` is a faithful set of `i32` (all `2^32` values): answers of an ideal set, iteration returns exactly the
+inserted values, each once, and every history of `< 2^60` operations returns -/
+theorem set64_i32_faithful :
+    SC.Faithful (fun x : BitVec 32 => (Gen.to_u64_i32 x).toNat) (fun n => Gen.from_u64_i32 (BitVec.ofNat 64 n)) :=
+  SC.faithful_of_bv Gen.to_u64_i32 Gen.from_u64_i32 to_injective_i32 from_to_i32
+/-- `Set64<i64>` is a faithful set of `i64` (all `2^64` values): answers of an ideal set, iteration returns exactly the
+inserted values, each once, and every history of `< 2^60` operations returns -/
+theorem set64_i64_faithful :
+    SC.Faithful (fun x : BitVec 64 => (Gen.to_u64_i64 x).toNat) (fun n => Gen.from_u64_i64 (BitVec.ofNat 64 n)) :=
+  SC.faithful_of_bv Gen.to_u64_i64 Gen.from_u64_i64 to_injective_i64 from_to_i64
+/-- `Set64<isize>` is a faithful set of `isize` (all `2^64` values): answers of an ideal set, iteration returns exactly the
+inserted values, each once, and every history of `< 2^60` operations returns -/
+theorem set64_isize_faithful :
+    SC.Faithful (fun x : BitVec 64 => (Gen.to_u64_isize x).toNat) (fun n => Gen.from_u64_isize (BitVec.ofNat 64 n)) :=
+  SC.faithful_of_bv Gen.to_u64_isize Gen.from_u64_isize to_injective_isize from_to_isize
+
+/-- `SetUsize` (the identity encoding of a 64-bit `usize`) is a faithful set of `usize` -/
+theorem setusize_faithful : SC.Faithful (fun x : BitVec 64 => x.toNat) (fun n => BitVec.ofNat 64 n) :=
+  SC.faithful_of_bv (fun x => x) (fun x => x) (fun _ _ h => h) (fun _ => rfl)
+
+/-- the same with the elements as natural numbers below `2^64` -/
+theorem setusize_faithful_nat :
+    SC.Faithful (fun x : {n : Nat // n < 2 ^ 64} => x.1) (fun n => ⟨n % 2 ^ 64, Nat.mod_lt _ (by decide)⟩) :=
+  SC.faithful_of _ _ (fun _ _ h => Subtype.ext h) (fun a => a.2) (fun a => Subtype.ext (Nat.mod_eq_of_lt a.2))
+
+/-- a Rust `char`: a 32-bit scalar value -/
+abbrev Char32 := {c : BitVec 32 // Gen.isScalar c = true}
+
+/-- `char::from_u64`: `std::char::from_u32(x as u32).unwrap()`; the `None` branch (a panic in Rust) gets a dummy
+value here — `set64_char_no_unwrap_panic` shows it is never taken on what the set holds -/
+def decChar (n : Nat) : Char32 :=
+  match h : Gen.from_u64_char (BitVec.ofNat 64 n) with
+  | some c => ⟨c, from_char_scalar _ c h⟩
+  | none => ⟨0#32, by decide⟩
+
+theorem decChar_enc (a : Char32) : decChar (Gen.to_u64_char a.1).toNat = a := by
+  have h := from_to_char a.1 a.2
+  unfold decChar
+  split
+  · rename_i c hc
+    rw [BitVec.ofNat_toNat, BitVec.setWidth_eq, h] at hc
+    exact Subtype.ext (Option.some.inj hc).symm
+  · rename_i hc
+    rw [BitVec.ofNat_toNat, BitVec.setWidth_eq, h] at hc
+    cases hc
+
+/-- `Set64<char>` is a faithful set of `char` (all scalar values) -/
+theorem set64_char_faithful : SC.Faithful (fun c : Char32 => (Gen.to_u64_char c.1).toNat) decChar :=
+  SC.faithful_of _ _ (fun a b h => Subtype.ext (to_injective_char a.1 b.1 (BitVec.eq_of_toNat_eq h)))
+    (fun a => (Gen.to_u64_char a.1).isLt) decChar_enc
+
+/-- iterating a `Set64<char>` never hits the `unwrap` on `None`: every code held by the wrapped `SetU64` decodes
+to a scalar value -/
+theorem set64_char_no_unwrap_panic {D : Type} (g : SC.Rng D) (fuel : Nat) (ops : List (SC.TOp Char32))
+    {d d' : D} {r' : SC.Rp} {outs : List SC.Out}
+    (h : SC.runOps SC.cfg64 g fuel .empty (ops.map (SC.TOp.enc (fun c : Char32 => (Gen.to_u64_char c.1).toNat))) d
+      = .ok ((r', outs), d')) :
+    ∀ x ∈ SC.elems SC.cfg64 r', ∃ c, Gen.from_u64_char (BitVec.ofNat 64 x) = some c := by
+  intro x hx
+  obtain ⟨a, _, e⟩ := SC.typed_elems_encoded _
+    (fun a b h => Subtype.ext (to_injective_char a.1 b.1 (BitVec.eq_of_toNat_eq h)))
+    (fun a => (Gen.to_u64_char a.1).isLt) g fuel ops h x hx
+  refine ⟨a.1, ?_⟩
+  rw [← e, BitVec.ofNat_toNat, BitVec.setWidth_eq]
+  exact from_to_char a.1 a.2
+
+/-- non-vacuity: a typed `i8` history through the encoding, on the ideal sets: `-1 ↦ 1`, `127 ↦ 254` -/
+example : SC.specRun [] ([SC.TOp.ins 0xFF#8, .ins 0x7F#8, .ins 0xFF#8, .len].map
+      (SC.TOp.enc (fun x : BitVec 8 => (Gen.to_u64_i8 x).toNat))) =
+    ([1, 254], [.bool true, .bool true, .bool false, .nat 2]) := by decide
+
+#print axioms set64_u64_faithful
+#print axioms set64_u32_faithful
+#print axioms set64_u16_faithful
+#print axioms set64_u8_faithful
+#print axioms set64_usize_faithful
+#print axioms set64_i8_faithful
+#print axioms set64_i16_faithful
+#print axioms set64_i32_faithful
+#print axioms set64_i64_faithful
+#print axioms set64_isize_faithful
+#print axioms setusize_faithful
+#print axioms setusize_faithful_nat
+#print axioms set64_char_faithful
+#print axioms set64_char_no_unwrap_panic
 
 end C03
